@@ -547,9 +547,41 @@ theorem parseJson_render (v : JVal) (hc : Canon v) : parseJson v.render = some v
   rw [List.append_nil] at this
   simp [parseJson, this, skipWs]
 
-/-- stored bytes of a canonical value parse back to the value -/
-theorem parseJsonBytes_renderBytes (v : JVal) (hc : Canon v) : parseJsonBytes v.renderBytes = some v := by
-  simp [parseJsonBytes, JVal.renderBytes, utf8Decode_utf8, parseJson_render v hc]
+/-- the real parser (recursion limit 128) reads the rendering of a canonical value nested less than 128 levels -/
+theorem parseJsonLim_render (v : JVal) (hc : Canon v) (hd : v.depth < RECURSION_LIMIT) :
+    parseJsonLim v.render = some v := by
+  simp [parseJsonLim, parseJson_render v hc, hd]
+
+/-- ... and refuses the rendering of EVERY value nested 128 levels or more: what the serialiser writes
+    without complaint is then lost (the defect D21) -/
+theorem parseJsonLim_render_deep (v : JVal) (hc : Canon v) (hd : RECURSION_LIMIT ≤ v.depth) :
+    parseJsonLim v.render = none := by
+  simp [parseJsonLim, parseJson_render v hc, Nat.not_lt.mpr hd]
+
+/-- below the limit the two parsers are the same function -/
+theorem parseJsonLim_eq {s : Str} {v : JVal} (h : parseJson s = some v) (hd : v.depth < RECURSION_LIMIT) :
+    parseJsonLim s = some v := by
+  simp [parseJsonLim, h, hd]
+
+theorem parseJsonLim_some {s : Str} {v : JVal} (h : parseJsonLim s = some v) :
+    parseJson s = some v ∧ v.depth < RECURSION_LIMIT := by
+  unfold parseJsonLim at h
+  split at h
+  · next w hw =>
+    split at h
+    · next hd => cases h; exact ⟨hw, hd⟩
+    · cases h
+  · cases h
+
+/-- stored bytes of a canonical value nested less than 128 levels parse back to the value -/
+theorem parseJsonBytes_renderBytes (v : JVal) (hc : Canon v) (hd : v.depth < RECURSION_LIMIT) :
+    parseJsonBytes v.renderBytes = some v := by
+  simp [parseJsonBytes, JVal.renderBytes, utf8Decode_utf8, parseJsonLim_render v hc hd]
+
+/-- stored bytes of a value nested 128 levels or more are unreadable -/
+theorem parseJsonBytes_renderBytes_deep (v : JVal) (hc : Canon v) (hd : RECURSION_LIMIT ≤ v.depth) :
+    parseJsonBytes v.renderBytes = none := by
+  simp [parseJsonBytes, JVal.renderBytes, utf8Decode_utf8, parseJsonLim_render_deep v hc hd]
 
 
 /-! ### integer tokens -/
@@ -650,7 +682,7 @@ theorem sample_canon : Canon sample := by
   refine ⟨by simp [strLt], ⟨numTok_ex2, List.Pairwise.nil⟩, numTok_ex1, numTok_natStr _⟩
 
 example : parseJson sample.render = some sample := parseJson_render sample sample_canon
-example : parseJsonBytes sample.renderBytes = some sample := parseJsonBytes_renderBytes sample sample_canon
+example : parseJsonBytes sample.renderBytes = some sample := parseJsonBytes_renderBytes sample sample_canon (by decide)
 example : RestOk (.num "7".toList) ",1]".toList := by simp [RestOk, NumStop]
 example : SortedKeys [("a".toList, .null), ("b".toList, .null)] ∧
     ∀ p ∈ [("a".toList, JVal.null), ("b".toList, .null)], strLt p.1 "c".toList = true := by
